@@ -101,10 +101,9 @@ theorem copy_up_preserves (st : Node) (id : Nat) (L : Layer) (pp : Path) (n : Na
     (∀ t, st = .symlink t → (upperCopy st id) = .symlink t) ∧
     (∀ i m, st = .other i m → (upperCopy st id) = .other id m) ∧
     (∀ i m c x L1 L2, st = .file i m c x → hMk L pp n (upperCopy st id) = .ok L1 →
-      hWrite L1 (n :: pp) 0 c = .ok L2 → (∀ q, q ≠ n :: pp → ∀ m' c' x', L q ≠ .file id m' c' x') →
-      L2 (n :: pp) = .file id m c 0) := by
+      hWrite L1 (n :: pp) 0 c = .ok L2 → L2 (n :: pp) = .file id m c 0) := by
   refine ⟨fun t h => by rw [h]; rfl, fun i m h => by rw [h]; rfl, ?_⟩
-  intro i m c x L1 L2 hst hmk hwr _
+  intro i m c x L1 L2 hst hmk hwr
   rw [hst] at hmk
   simp only [upperCopy, hMk] at hmk
   split at hmk
@@ -124,5 +123,25 @@ theorem rmdir_clears_upper_whiteouts_step (L : Layer) (p : Path) (c : Name) (h :
   · simp [hDeleteWhiteout, h, hUnlink]
   · simp [Layer.set]
   · intro q hq; simp [Layer.set, hq]
+
+/-! non-vacuity: the F6 history on a concrete disk (lower: `a/` with `a/b`; empty upper):
+    `unlink a/b; rmdir a; mkdir a` leaves an OPAQUE `a` in the upper layer and nothing shows
+    through, live and on disk. -/
+section Examples
+
+def f6Upper : Layer := fun q => if q = [] then .dir 0o755 0 0 else .absent
+def f6Lower : Layer := fun q =>
+  if q = [] then .dir 0o755 0 0 else if q = [0] then .dir 0o755 0 0
+  else if q = [1, 0] then .file 1 0o644 [7] 0 else .absent
+def f6Disk : Disk := { upper := some f6Upper, lowers := [f6Lower] }
+def f6Ops : List Op := [.unlink [0, 1], .rmdir [0], .mkdir [0] 0o700]
+
+example : merge f6Disk [1, 0] = .file 0o644 [7] 0 := by decide
+example : (run (importFs f6Disk) f6Ops).disk.nodeAt 0 [0] = .dir 0o700 1 0 := by decide
+example : merge (run (importFs f6Disk) f6Ops).disk [1, 0] = .none := by decide
+example : liveView (run (importFs f6Disk) f6Ops) [0, 1] = .none := by decide
+example : liveView (run (importFs f6Disk) f6Ops) [0] = .dir 0o700 0 := by decide
+
+end Examples
 
 end Fbr.Thm.C11
